@@ -91,6 +91,8 @@ def build_mean(name, d, batch=()):
         return M.ConstantMean(batch_shape=bs, constant_constraint=gpytorch.constraints.Interval(-2.0, 3.0))
     if name == "linear":
         return M.LinearMean(d, batch_shape=bs)
+    if name == "linear_nobias":
+        return M.LinearMean(d, batch_shape=bs, bias=False)
     raise ValueError(name)
 
 
